@@ -94,7 +94,9 @@ fn cmd_g1(args: &[String]) -> i32 {
         failure_persistence: None,
         max_shrink_iters: 4000,
         rng_algorithm: RngAlgorithm::ChaCha,
-        rng_seed: RngSeed::Fixed(seed),
+        // distinct case streams per (property, configuration, profile): the same VERIF_SEED explores
+        // different programs in different checks
+        rng_seed: RngSeed::Fixed(hash_seed(&[&prop, &cfg_name, profile.name], &[seed])),
         ..Config::default()
     });
     let _ = seed_bytes;
@@ -300,6 +302,7 @@ fn cmd_g4(args: &[String]) -> i32 {
     }
     let opts = RunOpts { strict: false, logging: false, known: known.clone(), quiesce_mid: false, timeout_s: 20, persist: replay_out.is_some(), prop: prop.clone(), config: cfg_name.clone() };
     let mut acc = Acc::new(&prop);
+    let seed = hash_seed(&[&prop, &cfg_name, profile.name, "g4"], &[seed]);
     let mut runner = TestRunner::new(Config { cases: programs, failure_persistence: None, rng_algorithm: RngAlgorithm::ChaCha, rng_seed: RngSeed::Fixed(seed), ..Config::default() });
     let strat = gen::case(&profile, 0);
     let mut crash_points = 0u64;
